@@ -495,6 +495,15 @@ for _p in ('C13', 'C07', 'C01'):
     _c['lean_modules'] = list(_c.get('lean_modules', [f'ClockBound.Properties.{_p}'])) + ['ClockBound.Properties.C13Refid']
     if 'C13' not in _c.get('also', []) and _p != 'C13': _c['also'] = list(_c.get('also', [])) + ['C13']
 
+# C05's "configured drift rate" is the daemon's: the value given on the command line must be the one in the record the client
+# multiplies by the age, whatever other options are given (a handful of the C19 release-binary runs, verdict C19)
+_c = PROPS['C05']
+_c['gens'] = (lambda old: lambda seed, th: old(seed, th) + [lambda: c19_run(['drift 50 @phc', 'drift none @phc', 'drift 50', 'drift 7 @phc @prior 1000', 'drift 4294967 @phc'])])(_c['gens'])
+_c['relevant'] = (lambda old: lambda c: old(c) or kind(c) == 'drift')(_c['relevant'])
+_c['project'] = (lambda old: lambda c: proj_first2(c) if kind(c) == 'drift' else old(c))(_c['project'])
+_c['also'] = list(_c.get('also', [])) + ['C19']
+_c['rule'] += " || plus five process-level `drift` runs of the release daemon (as in C19): --max-drift-rate alone, with the PHC options, over a previous instance's segment: the published max_drift_ppb is 1000 x the configured ppm"
+
 # properties whose theorem files are still being proved are not claimed yet
 for _p in ():
     PROPS[_p]['claimed'] = False
